@@ -39,7 +39,7 @@ fn class_of(k: &[u8; 32]) -> &'static str {
 }
 
 /// returns true if ok
-fn check_key(report: &Report, k: &[u8; 32], origin: &str) -> bool {
+pub fn check_key(report: &Report, k: &[u8; 32], origin: &str) -> bool {
     let w = want(k);
     let got = match catch(|| PublicKey::from_le_bytes(*k)) {
         Err(m) => {
